@@ -108,7 +108,7 @@ def main():
                                       "footprint_%s_%s.txt" % (name, arch), "program=%s\narch=%s\n(maxheap bytes, blocks below frontier) by n=%s\nsource:\n%s\n" % (name, arch, foot, src))
                     chk.sample({"program": name, "arch": arch, "maxheap_and_blocks_by_n": {str(k): v for k, v in foot.items()}}, limit=6)
         lad.close()
-    if not proofs_ok and not found:
+    if not proofs_ok and not chk.has_failing_input():
         what = [("%s (%s): %s" % (n, r, dd)) for n, r, ok, dd in chk.obligations if not ok]
         chk.violation("C10:unproved", "proof obligations broken, no growing footprint found: " + "; ".join(what)[:600], "unproved.txt", "\n".join(what) + "\n" + plog[-3000:], found_input=False)
     return chk.finish()
